@@ -1,13 +1,931 @@
-//! c13: bounded stand-in (E3) -- see DESIGN.md section 5
-#![allow(dead_code, unused_imports)]
+//! C13: read-only queries are total on arbitrary object graphs.
+//!
+//! Bounded family: "typed-chaos" documents. Each family is a small skeleton document (<= 12 objects, or a
+//! reference chain of up to 300 objects) with a list of slots; a slot is one dictionary key that the query code
+//! reads (or one whole object, or one trailer key) together with an alphabet of values of every kind: absent,
+//! wrong kinds, direct values, references to every object of the skeleton (self, cycles, shared), dangling
+//! references. A family is the FULL product of its slot alphabets, enumerated by a mixed-radix index. On every
+//! document a fixed list of query instances (library function, argument) is evaluated.
+//!
+//! Oracle (independent of the code under test): the property says every query "returns a value or an error";
+//! so the observation is made from OUTSIDE the query: each evaluation runs in a worker process with a CPU-time
+//! budget (ITIMER_PROF), a wall-clock backstop, an address-space limit and a 2 MiB stack, inside catch_unwind.
+//!   no-panic:<q>          the call unwound with a panic
+//!   terminates:<q>        the worker used up its CPU budget inside the call (loops forever)
+//!   bounded-recursion:<q> the worker overflowed its stack inside the call
+//!   no-abort:<q>          the worker aborted inside the call (allocation failure and the like)
+//! For lookups a reference model written here (follow the chain of references in the object table with a
+//! visited set) states what value must come back:
+//!   lookup-model:<q>      Ok on a dangling/cyclic chain, Err on a short valid chain, or a value that is not
+//!                         the object at the end of the chain
+//!   pages-sound:<q>       enumerated pages are not numbered 1..n or are not dictionaries of /Type /Page
+#![allow(dead_code)]
+use crate::c03::{obj_from_json, obj_json};
 use crate::common::*;
-use crate::gen::*;
+use lopdf::{dictionary, Dictionary, Document, Object, ObjectId, Stream, StringFormat};
+use rayon::prelude::*;
 use serde_json::{json, Value};
+use std::collections::{BTreeMap, HashSet};
+use std::io::Write;
+use std::panic::AssertUnwindSafe;
 
-pub fn run(_thorough: bool) -> Report {
-    Report::new("not built yet", false)
+// ------------------------------------------------------------------------------------------------ limits
+
+const CPU_MS_RUN: u64 = 50; // CPU budget of one query evaluation (legitimate ones take microseconds)
+const CPU_MS_REPLAY: u64 = 500;
+const WALL_S: i64 = 20; // wall-clock backstop for one evaluation
+const STACK: usize = 2 << 20; // stack of the evaluating thread (Rust's default for spawned threads)
+const AS_LIMIT: u64 = 4 << 30; // address space of a worker
+const SHORT_CHAIN: usize = 8; // a chain of at most this many references must resolve (far below any sane limit)
+
+#[repr(C)]
+struct Timeval { sec: i64, usec: i64 }
+#[repr(C)]
+struct Itimerval { interval: Timeval, value: Timeval }
+#[repr(C)]
+struct Rlimit { cur: u64, max: u64 }
+extern "C" {
+    fn setitimer(which: i32, new: *const Itimerval, old: *mut Itimerval) -> i32;
+    fn setrlimit(resource: i32, rlim: *const Rlimit) -> i32;
+}
+const ITIMER_REAL: i32 = 0;
+const ITIMER_PROF: i32 = 2;
+const RLIMIT_CORE: i32 = 4;
+const RLIMIT_AS: i32 = 9;
+const SIGABRT: i32 = 6;
+const SIGSEGV: i32 = 11;
+const SIGALRM: i32 = 14;
+const SIGPROF: i32 = 27;
+
+fn arm(which: i32, ms: u64) {
+    let t = Itimerval { interval: Timeval { sec: 0, usec: 0 }, value: Timeval { sec: (ms / 1000) as i64, usec: ((ms % 1000) * 1000) as i64 } };
+    unsafe { setitimer(which, &t, std::ptr::null_mut()); }
 }
 
-pub fn replay(_v: &Value) -> Result<(), String> {
-    Err("no replay".into())
+fn worker_limits() {
+    unsafe {
+        setrlimit(RLIMIT_CORE, &Rlimit { cur: 0, max: 0 });
+        setrlimit(RLIMIT_AS, &Rlimit { cur: AS_LIMIT, max: AS_LIMIT });
+    }
+}
+
+// ------------------------------------------------------------------------------------------------ queries
+
+#[derive(Clone, Copy, PartialEq, Eq, Debug)]
+enum Kind {
+    GetObject, Dereference, GetDictionary, GetObjectMut, HasObject, GetDictInDict, Catalog, GetPages, PageIter,
+    PageContents, PageContent, DecodeContent, PageResources, PageFonts, PageAnnots, PageImages, ObjectPage,
+    ExtractText, ExtractChunks, Outlines, Toc, OutlineNode, NamedDests, FontEncoding,
+    StreamFilters, StreamDecompress, StreamPlain, StreamDecode,
+}
+use Kind::*;
+
+const KINDS: &[(Kind, &str)] = &[
+    (GetObject, "get_object"), (Dereference, "dereference"), (GetDictionary, "get_dictionary"), (GetObjectMut, "get_object_mut"),
+    (HasObject, "has_object"), (GetDictInDict, "get_dict_in_dict"), (Catalog, "catalog"), (GetPages, "get_pages"), (PageIter, "page_iter"),
+    (PageContents, "get_page_contents"), (PageContent, "get_page_content"), (DecodeContent, "get_and_decode_page_content"),
+    (PageResources, "get_page_resources"), (PageFonts, "get_page_fonts"), (PageAnnots, "get_page_annotations"), (PageImages, "get_page_images"),
+    (ObjectPage, "get_object_page"), (ExtractText, "extract_text"), (ExtractChunks, "extract_text_chunks"), (Outlines, "get_outlines"),
+    (Toc, "get_toc"), (OutlineNode, "get_outline"), (NamedDests, "get_named_destinations"), (FontEncoding, "get_font_encoding"),
+    (StreamFilters, "Stream::filters"), (StreamDecompress, "Stream::decompressed_content"), (StreamPlain, "Stream::get_plain_content"),
+    (StreamDecode, "Stream::decode_content"),
+];
+
+fn kind_name(k: Kind) -> &'static str { KINDS.iter().find(|(x, _)| *x == k).map(|(_, n)| *n).unwrap() }
+fn kind_from(n: &str) -> Option<Kind> { KINDS.iter().find(|(_, x)| *x == n).map(|(k, _)| *k) }
+
+/// result of one evaluation that came back: class v = Ok with content, e = Ok/empty or not applicable,
+/// r = Err of the "not found" family, R = any other Err; model = violated model obligation
+struct Res { class: u8, model: Option<(&'static str, String)>, note: String }
+
+fn ok(nonempty: bool, note: String) -> Res { Res { class: if nonempty { b'v' } else { b'e' }, model: None, note } }
+fn er(e: &lopdf::Error) -> Res {
+    use lopdf::Error::*;
+    let class = match e { DictKey(_) | ObjectNotFound(_) | PageNumberNotFound(_) | NoOutline => b'r', _ => b'R' };
+    Res { class, model: None, note: format!("Err({:?})", e) }
+}
+fn from_result<T>(r: &Result<T, lopdf::Error>, nonempty: impl Fn(&T) -> bool, note: impl Fn(&T) -> String) -> Res {
+    match r { Ok(v) => ok(nonempty(v), format!("Ok({})", note(v))), Err(e) => er(e) }
+}
+
+// ---- the reference model of a lookup: follow references in the object table, remembering what was visited
+enum Chain { End { last: ObjectId, hops: usize }, Dangling(ObjectId), Cycle(ObjectId) }
+
+fn model_chain(objects: &BTreeMap<ObjectId, Object>, start: ObjectId) -> Chain {
+    let mut seen: HashSet<ObjectId> = HashSet::new();
+    let mut id = start;
+    let mut hops = 0;
+    loop {
+        if !seen.insert(id) { return Chain::Cycle(id); }
+        match objects.iter().find(|(k, _)| **k == id).map(|(_, v)| v) {
+            None => return Chain::Dangling(id),
+            Some(Object::Reference(next)) => { id = *next; hops += 1; }
+            Some(_) => return Chain::End { last: id, hops },
+        }
+    }
+}
+
+fn stored<'a>(doc: &'a Document, id: ObjectId) -> Option<&'a Object> { doc.objects.iter().find(|(k, _)| **k == id).map(|(_, v)| v) }
+
+/// `got`: Ok(address of the returned object / dictionary) or Err(text). `want_dict`: the query returns a dictionary.
+fn check_lookup(doc: &Document, start: ObjectId, got: Result<*const (), String>, want_dict: bool, what: &str) -> Option<(&'static str, String)> {
+    match (model_chain(&doc.objects, start), got) {
+        (Chain::Dangling(at), Ok(_)) => Some(("lookup-model", format!("{} returned a value although the chain from {:?} dangles at {:?}", what, start, at))),
+        (Chain::Cycle(at), Ok(_)) => Some(("lookup-model", format!("{} returned a value although the chain from {:?} is cyclic (revisits {:?})", what, start, at))),
+        (Chain::Dangling(_), Err(_)) | (Chain::Cycle(_), Err(_)) => None,
+        (Chain::End { last, hops }, got) => {
+            let end = stored(doc, last).unwrap();
+            let expect: Option<*const ()> = if want_dict {
+                match end { Object::Dictionary(d) => Some(d as *const Dictionary as *const ()), _ => None }
+            } else { Some(end as *const Object as *const ()) };
+            match (expect, got) {
+                (Some(p), Ok(q)) => if p == q { None } else { Some(("lookup-model", format!("{} returned something else than the object {:?} at the end of the chain from {:?}", what, last, start))) },
+                (None, Ok(_)) => Some(("lookup-model", format!("{} returned a dictionary although the chain from {:?} ends at {:?} which is {}", what, start, last, end.enum_variant()))),
+                (Some(_), Err(e)) => if hops <= SHORT_CHAIN { Some(("lookup-model", format!("{} returned Err({}) although the chain from {:?} reaches {:?} after {} references", what, e, start, last, hops))) } else { None },
+                (None, Err(_)) => None,
+            }
+        }
+    }
+}
+
+fn is_page(doc: &Document, id: ObjectId) -> bool {
+    match model_chain(&doc.objects, id) {
+        Chain::End { last, .. } => match stored(doc, last) {
+            Some(Object::Dictionary(d)) => matches!(d.as_hashmap().get(b"Type".as_slice()), Some(Object::Name(n)) if n == b"Page"),
+            _ => false,
+        },
+        _ => false,
+    }
+}
+
+fn run_inst(doc: &Document, kind: Kind, arg: ObjectId) -> Res {
+    let p = |o: &Object| o as *const Object as *const ();
+    let pd = |o: &Dictionary| o as *const Dictionary as *const ();
+    match kind {
+        GetObject => {
+            let r = doc.get_object(arg);
+            let mut res = from_result(&r, |_| true, |o| o.enum_variant().to_string());
+            res.model = check_lookup(doc, arg, r.map(p).map_err(|e| e.to_string()), false, "get_object");
+            res
+        }
+        Dereference => {
+            let start = Object::Reference(arg);
+            let r = doc.dereference(&start);
+            let mut res = from_result(&r, |_| true, |(id, o)| format!("{:?}, {}", id, o.enum_variant()));
+            let last_ok = match (&r, model_chain(&doc.objects, arg)) { (Ok((Some(l), _)), Chain::End { last, .. }) => *l == last, (Ok(_), _) => false, _ => true };
+            res.model = check_lookup(doc, arg, r.map(|(_, o)| p(o)).map_err(|e| e.to_string()), false, "dereference");
+            if res.model.is_none() && !last_ok { res.model = Some(("lookup-model", format!("dereference of a reference to {:?} did not report the last id of the chain", arg))); }
+            // a non-reference comes back as it is, with no id
+            let plain = Object::Integer(5);
+            match doc.dereference(&plain) {
+                Ok((None, o)) if std::ptr::eq(o, &plain) => {}
+                other => if res.model.is_none() { res.model = Some(("lookup-model", format!("dereference of a non-reference returned {:?}", other.map(|(i, o)| (i, o.enum_variant())).map_err(|e| e.to_string())))); }
+            }
+            res
+        }
+        GetDictionary => {
+            let r = doc.get_dictionary(arg);
+            let mut res = from_result(&r, |d| !d.is_empty(), |d| format!("dict of {}", d.len()));
+            res.model = check_lookup(doc, arg, r.map(pd).map_err(|e| e.to_string()), true, "get_dictionary");
+            res
+        }
+        GetObjectMut => {
+            let mut d2 = doc.clone();
+            let r = d2.get_object_mut(arg).map(|o| p(&*o)).map_err(|e| e.to_string());
+            let res0 = match &r { Ok(_) => ok(true, "Ok".into()), Err(e) => Res { class: b'r', model: None, note: format!("Err({})", e) } };
+            Res { model: check_lookup(&d2, arg, r, false, "get_object_mut"), ..res0 }
+        }
+        HasObject => {
+            let r = doc.has_object(arg);
+            let m = doc.objects.keys().any(|k| *k == arg);
+            Res { class: if r { b'v' } else { b'e' }, model: if r != m { Some(("lookup-model", format!("has_object({:?}) = {} but the object table says {}", arg, r, m))) } else { None }, note: r.to_string() }
+        }
+        GetDictInDict => {
+            let node = dictionary! { "K" => Object::Reference(arg), "D" => Object::Dictionary(dictionary! { "X" => 1 }), "I" => 7 };
+            let r = doc.get_dict_in_dict(&node, b"K");
+            let mut res = from_result(&r, |d| !d.is_empty(), |d| format!("dict of {}", d.len()));
+            res.model = check_lookup(doc, arg, r.map(pd).map_err(|e| e.to_string()), true, "get_dict_in_dict(<</K ref>>, K)");
+            let direct = match node.as_hashmap().get(b"D".as_slice()) { Some(Object::Dictionary(d)) => pd(d), _ => std::ptr::null() };
+            if res.model.is_none() {
+                match doc.get_dict_in_dict(&node, b"D") { Ok(d) if pd(d) == direct => {}, other => res.model = Some(("lookup-model", format!("get_dict_in_dict on a direct dictionary value returned {:?}", other.map(|d| d.len()).map_err(|e| e.to_string())))) }
+            }
+            if res.model.is_none() && doc.get_dict_in_dict(&node, b"I").is_ok() { res.model = Some(("lookup-model", "get_dict_in_dict returned a dictionary for an integer value".into())); }
+            if res.model.is_none() && doc.get_dict_in_dict(&node, b"Missing").is_ok() { res.model = Some(("lookup-model", "get_dict_in_dict returned a dictionary for an absent key".into())); }
+            res
+        }
+        Catalog => {
+            let r = doc.catalog();
+            let mut res = from_result(&r, |d| !d.is_empty(), |d| format!("dict of {}", d.len()));
+            let got = r.map(pd).map_err(|e| e.to_string());
+            res.model = match doc.trailer.as_hashmap().get(b"Root".as_slice()) {
+                Some(Object::Reference(id)) => check_lookup(doc, *id, got, true, "catalog"),
+                other => if got.is_ok() { Some(("lookup-model", format!("catalog returned a dictionary although the trailer /Root is {:?}", other))) } else { None },
+            };
+            res
+        }
+        GetPages => {
+            let pages = doc.get_pages();
+            let mut res = ok(!pages.is_empty(), format!("{} pages", pages.len()));
+            for (k, (num, id)) in pages.iter().enumerate() {
+                if *num as usize != k + 1 { res.model = Some(("pages-sound", format!("page numbers are not 1..n: {:?}", pages.keys().collect::<Vec<_>>()))); break; }
+                if !is_page(doc, *id) { res.model = Some(("pages-sound", format!("get_pages lists {:?}, which is not a dictionary of /Type /Page", id))); break; }
+            }
+            res
+        }
+        PageIter => {
+            let mut it = doc.page_iter();
+            let mut out = vec![];
+            let mut model = None;
+            loop {
+                let (lo, hi) = it.size_hint();
+                if let Some(h) = hi { if lo > h { model = Some(("pages-sound", format!("size_hint lower bound {} exceeds upper bound {}", lo, h))); } }
+                match it.next() { Some(id) => out.push(id), None => break }
+                if out.len() > 100_000 { model = Some(("pages-sound", "page_iter yielded more than 100000 ids on a document of at most a few hundred objects".into())); break; }
+            }
+            if model.is_none() { if let Some(bad) = out.iter().find(|id| !is_page(doc, **id)) { model = Some(("pages-sound", format!("page_iter yields {:?}, which is not a dictionary of /Type /Page", bad))); } }
+            Res { model, ..ok(!out.is_empty(), format!("{} pages", out.len())) }
+        }
+        PageContents => { let v = doc.get_page_contents(arg); ok(!v.is_empty(), format!("{:?}", v)) }
+        PageContent => from_result(&doc.get_page_content(arg), |v| !v.is_empty(), |v| format!("{} bytes", v.len())),
+        DecodeContent => from_result(&doc.get_and_decode_page_content(arg), |c| !c.operations.is_empty(), |c| format!("{} operations", c.operations.len())),
+        PageResources => from_result(&doc.get_page_resources(arg), |(d, ids)| d.is_some() || !ids.is_empty(), |(d, ids)| format!("direct={} ids={:?}", d.is_some(), ids)),
+        PageFonts => from_result(&doc.get_page_fonts(arg), |m| !m.is_empty(), |m| format!("{} fonts", m.len())),
+        PageAnnots => from_result(&doc.get_page_annotations(arg), |v| !v.is_empty(), |v| format!("{} annotations", v.len())),
+        PageImages => from_result(&doc.get_page_images(arg), |v| !v.is_empty(), |v| format!("{} images", v.len())),
+        ObjectPage => from_result(&doc.get_object_page(arg), |_| true, |id| format!("{:?}", id)),
+        ExtractText => {
+            let first = doc.extract_text(&[1]);
+            let _ = doc.extract_text(&[1, 2]);
+            let _ = doc.extract_text(&[2, 1, 1]);
+            let _ = doc.extract_text(&[0]);
+            let _ = doc.extract_text(&[]);
+            let _ = doc.extract_text(&[u32::MAX]);
+            from_result(&first, |s| !s.is_empty(), |s| format!("{:?}", s))
+        }
+        ExtractChunks => { let v = doc.extract_text_chunks(&[1, 2, 0]); ok(v.iter().any(|c| c.is_ok()), format!("{} chunks", v.len())) }
+        Outlines => {
+            let mut m = Default::default();
+            let r = doc.get_outlines(None, None, &mut m);
+            from_result(&r, |o| o.as_ref().map(|v| !v.is_empty()).unwrap_or(false), |o| format!("{:?} outlines, {} named destinations", o.as_ref().map(|v| v.len()), m.len()))
+        }
+        Toc => from_result(&doc.get_toc(), |t| !t.toc.is_empty() || !t.errors.is_empty(), |t| format!("{:?}", t)),
+        OutlineNode => match stored(doc, arg) {
+            Some(Object::Dictionary(d)) => { let mut m = Default::default(); from_result(&doc.get_outline(d, &mut m), |o| o.is_some(), |o| format!("some={}", o.is_some())) }
+            _ => ok(false, "not applicable".into()),
+        },
+        NamedDests => match stored(doc, arg) {
+            Some(Object::Dictionary(d)) => { let mut m = Default::default(); let r = doc.get_named_destinations(d, &mut m); from_result(&r, |_| !m.is_empty(), |_| format!("{} destinations", m.len())) }
+            _ => ok(false, "not applicable".into()),
+        },
+        FontEncoding => match stored(doc, arg) {
+            Some(Object::Dictionary(d)) => {
+                let r = d.get_font_encoding(doc);
+                if let Ok(enc) = &r { let _ = Document::decode_text(enc, b"AB\x00\xff\x80"); let _ = Document::decode_text(enc, b""); }
+                from_result(&r, |_| true, |e| format!("{:?}", e))
+            }
+            _ => ok(false, "not applicable".into()),
+        },
+        StreamFilters | StreamDecompress | StreamPlain | StreamDecode => match stored(doc, arg) {
+            Some(Object::Stream(s)) => match kind {
+                StreamFilters => from_result(&s.filters(), |v| !v.is_empty(), |v| format!("{} filters", v.len())),
+                StreamDecompress => from_result(&s.decompressed_content(), |v| !v.is_empty(), |v| format!("{} bytes", v.len())),
+                StreamPlain => from_result(&s.get_plain_content(), |v| !v.is_empty(), |v| format!("{} bytes", v.len())),
+                _ => from_result(&s.decode_content(), |c| !c.operations.is_empty(), |c| format!("{} operations", c.operations.len())),
+            },
+            _ => ok(false, "not applicable".into()),
+        },
+    }
+}
+
+// ------------------------------------------------------------------------------------------------ families
+
+enum Tgt { Key(u32, &'static str), Whole(ObjectId), Trailer(&'static str) }
+struct Slot { tgt: Tgt, vals: Vec<Option<Object>>, nq: usize }
+
+struct Family {
+    name: &'static str,
+    what: &'static str,
+    base: Vec<(ObjectId, Object)>,
+    trailer: Dictionary,
+    slots: Vec<Slot>,
+    custom: Option<(fn(&[usize]) -> Document, Vec<usize>)>,
+    insts: Vec<(Kind, ObjectId)>,
+}
+
+impl Family {
+    fn radices(&self, thorough: bool) -> Vec<usize> {
+        if let Some((_, r)) = &self.custom { return r.clone(); }
+        self.slots.iter().map(|s| if thorough { s.vals.len() } else { s.nq.min(s.vals.len()) }).collect()
+    }
+    fn count(&self, thorough: bool) -> u64 { self.radices(thorough).iter().map(|r| *r as u64).product() }
+    fn digits(&self, idx: u64, thorough: bool) -> Vec<usize> {
+        let rad = self.radices(thorough);
+        let mut d = vec![0; rad.len()];
+        let mut x = idx;
+        for j in (0..rad.len()).rev() { d[j] = (x % rad[j] as u64) as usize; x /= rad[j] as u64; }
+        d
+    }
+    fn build(&self, idx: u64, thorough: bool) -> Document {
+        let dg = self.digits(idx, thorough);
+        if let Some((f, _)) = &self.custom { return f(&dg); }
+        let mut objects: BTreeMap<ObjectId, Object> = self.base.iter().cloned().collect();
+        let mut trailer = self.trailer.clone();
+        for (s, &k) in self.slots.iter().zip(dg.iter()) {
+            if let Tgt::Whole(id) = &s.tgt { match &s.vals[k] { Some(o) => { objects.insert(*id, o.clone()); } None => { objects.remove(id); } } }
+        }
+        for (s, &k) in self.slots.iter().zip(dg.iter()) {
+            match &s.tgt {
+                Tgt::Whole(_) => {}
+                Tgt::Trailer(key) => match &s.vals[k] { Some(o) => trailer.set(*key, o.clone()), None => { trailer.remove(key.as_bytes()); } },
+                Tgt::Key(n, key) => {
+                    let d = match objects.get_mut(&(*n, 0)) { Some(Object::Dictionary(d)) => Some(d), Some(Object::Stream(s)) => Some(&mut s.dict), _ => None };
+                    if let Some(d) = d { match &s.vals[k] { Some(o) => d.set(*key, o.clone()), None => { d.remove(key.as_bytes()); } } }
+                }
+            }
+        }
+        make_doc(objects, trailer)
+    }
+}
+
+fn make_doc(objects: BTreeMap<ObjectId, Object>, trailer: Dictionary) -> Document {
+    let mut d = Document::with_version("1.5");
+    d.max_id = objects.keys().map(|k| k.0).max().unwrap_or(0);
+    d.objects = objects;
+    d.trailer = trailer;
+    d
+}
+
+fn r(n: u32) -> Object { Object::Reference((n, 0)) }
+fn i(v: i64) -> Object { Object::Integer(v) }
+fn n(b: &str) -> Object { Object::Name(b.as_bytes().to_vec()) }
+fn s(b: &[u8]) -> Object { Object::String(b.to_vec(), StringFormat::Literal) }
+fn a(v: Vec<Object>) -> Object { Object::Array(v) }
+fn d(x: Dictionary) -> Object { Object::Dictionary(x) }
+fn st(x: Dictionary, content: &[u8]) -> Object { Object::Stream(Stream::new(x, content.to_vec())) }
+/// marker for "key absent / object absent" inside an alphabet
+fn ab() -> Object { Object::Name(b"\0absent\0".to_vec()) }
+fn vals(v: Vec<Object>) -> Vec<Option<Object>> { let m = ab(); v.into_iter().map(|o| if o == m { None } else { Some(o) }).collect() }
+fn key(obj: u32, k: &'static str, nq: usize, v: Vec<Object>) -> Slot { Slot { tgt: Tgt::Key(obj, k), vals: vals(v), nq } }
+fn whole(obj: u32, nq: usize, v: Vec<Object>) -> Slot { Slot { tgt: Tgt::Whole((obj, 0)), vals: vals(v), nq } }
+fn root_trailer() -> Dictionary { dictionary! { "Root" => r(1) } }
+fn on(kinds: &[Kind], id: u32) -> Vec<(Kind, ObjectId)> { kinds.iter().map(|k| (*k, (id, 0))).collect() }
+
+const CMAP: &[u8] = b"/CIDInit /ProcSet findresource begin\n12 dict begin\nbegincmap\n/CIDSystemInfo\n<< /Registry (Adobe)\n/Ordering (UCS)\n/Supplement 0\n>> def\n/CMapName /Adobe-Identity-UCS def\n/CMapType 2 def\n1 begincodespacerange\n<0000> <FFFF>\nendcodespacerange\n2 beginbfrange\n<0000> <005E> <0020>\n<005F> <0061> [<D83DDE00> <D83DDD27> <D83DDD28>]\nendbfrange\n1 beginbfchar\n<3A51> <D840DC3E>\nendbfchar\nendcmap\nCMapName currentdict /CMap defineresource pop\nend\nend";
+const TEXT: &[u8] = b"BT /F1 12 Tf (AB) Tj <0041> Tj [(A) -200 (B)] TJ ET";
+
+fn catalog() -> Object { d(dictionary! { "Type" => n("Catalog"), "Pages" => r(2) }) }
+fn pages_node() -> Object { d(dictionary! { "Type" => n("Pages"), "Kids" => a(vec![r(3)]), "Count" => i(1) }) }
+fn font() -> Object { d(dictionary! { "Type" => n("Font"), "Subtype" => n("Type1"), "BaseFont" => n("Helvetica"), "Encoding" => n("WinAnsiEncoding") }) }
+fn zlib(data: &[u8]) -> Vec<u8> {
+    let mut s = Stream::new(Dictionary::new(), data.repeat(8));
+    let _ = s.compress();
+    s.content
+}
+
+const CHAIN_LENS: [usize; 9] = [1, 2, 3, 6, 127, 128, 129, 130, 300];
+const CHAIN_ENDS: usize = 7;
+fn build_chain(dg: &[usize]) -> Document {
+    let len = CHAIN_LENS[dg[0]] as u32;
+    let mut o: BTreeMap<ObjectId, Object> = BTreeMap::new();
+    o.insert((1, 0), d(dictionary! { "Type" => n("Catalog"), "Pages" => r(2), "Outlines" => r(4) }));
+    o.insert((2, 0), pages_node());
+    o.insert((3, 0), d(dictionary! { "Type" => n("Page"), "Parent" => r(2), "Contents" => r(10), "Resources" => r(10), "Annots" => r(10) }));
+    o.insert((4, 0), d(dictionary! { "First" => r(5) }));
+    o.insert((5, 0), d(dictionary! { "Title" => r(10), "Dest" => r(10) }));
+    o.insert((8, 0), d(dictionary! { "Type" => n("Font"), "ToUnicode" => r(10) }));
+    for j in 0..len - 1 { o.insert((10 + j, 0), r(10 + j + 1)); }
+    let last = 10 + len - 1;
+    let end = match dg[1] {
+        0 => i(7),
+        1 => r(9999),
+        2 => r(10),
+        3 => r(last),
+        4 => d(dictionary! { "Type" => n("Font"), "Font" => d(dictionary! { "F1" => r(8) }) }),
+        5 => st(Dictionary::new(), TEXT),
+        _ => a(vec![r(3), n("Fit")]),
+    };
+    o.insert((last, 0), end);
+    make_doc(o, root_trailer())
+}
+
+fn families() -> Vec<Family> {
+    let mut out = vec![];
+    let plain = |name, what, base: Vec<(u32, Object)>, slots, insts| Family { name, what, base: base.into_iter().map(|(k, v)| ((k, 0), v)).collect(), trailer: root_trailer(), slots, custom: None, insts };
+
+    // ---- lookup: 3 objects at sparse ids (a gap and a non-zero generation), every object one of 8 kinds
+    {
+        let w = || vals(vec![Object::Reference((1, 0)), Object::Reference((2, 0)), Object::Reference((5, 3)), Object::Reference((5, 0)), Object::Reference((9, 0)), i(7),
+                             d(dictionary! { "K" => r(1) }), a(vec![r(2)])]);
+        let ids = [(1, 0), (2, 0), (5, 3), (5, 0), (9, 0)];
+        let mut insts = vec![];
+        for id in ids { for k in [GetObject, Dereference, GetDictionary, GetObjectMut, HasObject, GetDictInDict] { insts.push((k, id)); } }
+        out.push(Family { name: "lookup", what: "objects 1 0, 2 0, 5 3 each one of {ref to each of the three, ref 5 0 (wrong generation), ref 9 0 (dangling), integer, dictionary, array}; lookups of the 3 ids and of 5 0 and 9 0",
+            base: vec![], trailer: Dictionary::new(),
+            slots: vec![Slot { tgt: Tgt::Whole((1, 0)), vals: w(), nq: 8 }, Slot { tgt: Tgt::Whole((2, 0)), vals: w(), nq: 8 }, Slot { tgt: Tgt::Whole((5, 3)), vals: w(), nq: 8 }],
+            custom: None, insts });
+    }
+    // ---- chain: a chain of n references hanging under /Contents /Resources /Annots /Title /Dest /ToUnicode
+    {
+        let mut insts = on(&[GetObject, Dereference, GetDictionary, GetObjectMut, GetDictInDict], 10);
+        insts.extend(on(&[PageContents, PageContent, PageResources, PageFonts, PageAnnots, PageImages, ExtractText], 3));
+        insts.extend(on(&[Outlines, Toc], 0));
+        insts.extend(on(&[OutlineNode], 5));
+        insts.extend(on(&[FontEncoding], 8));
+        out.push(Family { name: "chain", what: "a chain of n in {1,2,3,6,127,128,129,130,300} references starting at object 10 and ending in {integer, dangling ref, ref back to 10, ref to itself, dictionary, stream, array}, used as /Contents /Resources /Annots of the page, /Title /Dest of an outline item and /ToUnicode of a font",
+            base: vec![], trailer: Dictionary::new(), slots: vec![], custom: Some((build_chain, vec![CHAIN_LENS.len(), CHAIN_ENDS])), insts });
+    }
+    // ---- root: trailer /Root x kind of object 1 x catalog /Pages
+    {
+        let cat = || dictionary! { "Type" => n("Catalog"), "Pages" => r(2), "Outlines" => r(5) };
+        let base = vec![(1, d(cat())), (2, pages_node()), (3, d(dictionary! { "Type" => n("Page"), "Parent" => r(2) })), (4, r(1)), (5, d(dictionary! { "First" => r(3) })), (6, r(6))];
+        let slots = vec![
+            Slot { tgt: Tgt::Trailer("Root"), nq: 9, vals: vals(vec![r(1), ab(), r(2), r(99), i(1), d(cat()), r(4), r(6), a(vec![r(1)])]) },
+            whole(1, 6, vec![d(cat()), i(1), a(vec![r(2)]), st(cat(), b""), r(1), ab()]),
+            key(1, "Pages", 8, vec![r(2), ab(), r(1), r(99), d(dictionary! { "Type" => n("Pages"), "Kids" => a(vec![r(3)]) }), i(1), r(3), r(6)]),
+        ];
+        out.push(plain("root", "trailer /Root in 9 values x object 1 in {catalog, integer, array, stream, ref to itself, absent} x catalog /Pages in 8 values", base, slots,
+            on(&[Catalog, GetPages, PageIter, Outlines, Toc, ExtractText], 0)));
+    }
+    // ---- pagetree: Kids / Type / Count chaos with cycles, shared and dangling kids, indirect Kids arrays
+    {
+        let base = vec![(1, catalog()), (2, d(dictionary! { "Type" => n("Pages"), "Count" => i(2) })), (3, d(Dictionary::new())), (4, d(Dictionary::new())), (5, a(vec![r(3), r(4)])),
+                        (6, d(dictionary! { "Type" => n("Page"), "Parent" => r(2) }))];
+        let slots = vec![
+            key(2, "Kids", 6, vec![a(vec![r(3), r(4)]), a(vec![r(4), r(3), r(3)]), a(vec![r(2)]), r(5), a(vec![r(6), r(3), i(1), r(99), r(4), r(3), r(3)]), ab(),
+                                   i(1), a(vec![]), a(vec![r(3)]), r(2), r(99)]),
+            key(3, "Type", 2, vec![n("Pages"), n("Page"), ab(), i(1), n("Other")]),
+            key(3, "Kids", 4, vec![a(vec![r(4)]), a(vec![r(2)]), a(vec![r(3)]), ab(), a(vec![]), a(vec![r(4), r(6), r(4)]), r(5), i(1)]),
+            key(3, "Count", 4, vec![i(1), i(1_000_000_000_000_000), i(i64::MAX), ab(), i(-1), n("N"), r(3), r(99)]),
+            key(4, "Type", 2, vec![n("Page"), n("Pages"), ab()]),
+            key(4, "Kids", 2, vec![ab(), a(vec![r(3)]), a(vec![r(2)]), a(vec![r(4), r(6)])]),
+            key(4, "Count", 1, vec![ab(), i(i64::MAX)]),
+        ];
+        out.push(plain("pagetree", "root /Kids in 11 values (cycles, duplicates, dangling and non-reference kids, indirect array) x node 3 /Type(5) /Kids(8) /Count(8: huge, negative, ill-typed, self reference) x node 4 /Type(3) /Kids(4) /Count(2)", base, slots,
+            on(&[GetPages, PageIter, ExtractText], 0)));
+    }
+    // ---- contents
+    {
+        let page = d(dictionary! { "Type" => n("Page"), "Parent" => r(2), "Resources" => d(dictionary! { "Font" => d(dictionary! { "F1" => r(6) }) }) });
+        let base = vec![(1, catalog()), (2, pages_node()), (3, page), (4, i(0)), (5, i(0)), (6, font())];
+        let slots = vec![
+            key(3, "Contents", 6, vec![r(4), a(vec![r(4), r(5)]), r(3), r(99), a(vec![r(4), i(1), r(99), r(3), a(vec![r(4)])]), ab(), a(vec![]), i(1), r(5), st(Dictionary::new(), TEXT), d(Dictionary::new())]),
+            whole(4, 5, vec![st(Dictionary::new(), TEXT), r(4), r(5), a(vec![r(4)]), st(dictionary! { "Filter" => n("FlateDecode") }, b"garbage"), a(vec![r(5), r(5)]), d(Dictionary::new()), i(1),
+                             st(dictionary! { "Filter" => a(vec![n("ASCII85Decode"), n("Foo")]) }, b"87cURD]i,\"Ebo80~>"), ab()]),
+            whole(5, 3, vec![st(Dictionary::new(), b"BT (Yo) Tj ET"), r(4), r(5), a(vec![r(4)]), i(1)]),
+        ];
+        out.push(plain("contents", "page /Contents in 11 values x object 4 in 10 kinds (streams, refs forming 4<->5 cycles, arrays containing themselves, absent) x object 5 in 5 kinds", base, slots,
+            on(&[PageContents, PageContent, DecodeContent, ExtractText, ExtractChunks], 3)));
+    }
+    // ---- resources / Parent chains
+    {
+        let res = || d(dictionary! { "Font" => d(dictionary! { "F1" => r(6) }), "XObject" => d(dictionary! { "Im1" => r(7) }) });
+        let base = vec![(1, catalog()), (2, pages_node()), (3, d(dictionary! { "Type" => n("Page"), "Contents" => r(8) })), (4, res()), (5, d(dictionary! { "Type" => n("Pages"), "Resources" => r(4) })),
+                        (6, font()), (7, st(dictionary! { "Subtype" => n("Image"), "Width" => i(1), "Height" => i(1) }, b"x")), (8, st(Dictionary::new(), TEXT))];
+        let slots = vec![
+            key(3, "Resources", 4, vec![ab(), r(4), d(dictionary! { "Font" => d(dictionary! { "F1" => r(6) }) }), r(3), r(99), i(1), r(5)]),
+            key(3, "Parent", 4, vec![r(2), r(3), r(5), ab(), r(99), i(1), d(dictionary! { "Resources" => r(4) })]),
+            key(2, "Parent", 3, vec![ab(), r(3), r(5), r(2)]),
+            key(2, "Resources", 2, vec![ab(), r(4), r(2), i(1)]),
+            key(5, "Parent", 2, vec![ab(), r(2), r(5), r(3)]),
+            whole(4, 3, vec![res(), r(4), i(1), r(3), a(vec![r(4)]), ab()]),
+        ];
+        let mut insts = on(&[PageResources, PageFonts, PageImages, ExtractText], 3);
+        insts.extend(on(&[PageResources, PageFonts], 2));
+        out.push(plain("resources", "page /Resources(7) /Parent(7) x node 2 /Parent(4: cycles 2->3->2, 2->2, 2->5) /Resources(4) x node 5 /Parent(4) x resources object 4 in 6 kinds", base, slots, insts));
+    }
+    // ---- fonts and encodings
+    {
+        let base = vec![(1, catalog()), (2, pages_node()), (3, d(dictionary! { "Type" => n("Page"), "Parent" => r(2), "Resources" => r(4), "Contents" => r(8) })),
+                        (4, d(Dictionary::new())), (5, d(Dictionary::new())), (6, d(dictionary! { "Subtype" => n("Type0"), "BaseFont" => n("F") })), (7, i(0)), (8, st(Dictionary::new(), TEXT)), (9, r(9))];
+        let slots = vec![
+            key(4, "Font", 2, vec![r(5), d(dictionary! { "F1" => r(6) }), ab(), i(1), r(4), r(99), a(vec![r(5)])]),
+            key(5, "F1", 2, vec![r(6), font(), i(1), r(99), r(5), ab()]),
+            key(6, "Type", 2, vec![n("Font"), ab(), n("Other"), i(1)]),
+            key(6, "Encoding", 5, vec![n("Identity-H"), ab(), n("WinAnsiEncoding"), n("Foo"), i(1), n("StandardEncoding"), n("MacRomanEncoding"), n("MacExpertEncoding"), n("PDFDocEncoding"),
+                                       n("UniGB-UCS2-H"), r(6), d(Dictionary::new()), r(99)]),
+            key(6, "ToUnicode", 4, vec![r(7), ab(), r(6), r(9), r(99), i(1), st(Dictionary::new(), CMAP)]),
+            whole(7, 3, vec![st(Dictionary::new(), CMAP), st(Dictionary::new(), b"xyz"), r(7), st(Dictionary::new(), b""), st(dictionary! { "Filter" => n("FlateDecode") }, b"garbage"),
+                             st(dictionary! { "Filter" => n("Foo") }, CMAP), i(1)]),
+        ];
+        let mut insts = on(&[PageFonts], 3);
+        insts.extend(on(&[FontEncoding], 6));
+        insts.extend(on(&[FontEncoding], 5));
+        insts.extend(on(&[FontEncoding], 4));
+        insts.extend(on(&[ExtractText, ExtractChunks], 3));
+        out.push(plain("fonts", "resources /Font(7) x font collection /F1(6) x font /Type(4) /Encoding(13) /ToUnicode(7) x ToUnicode object 7 in 7 kinds", base, slots, insts));
+    }
+    // ---- annotations
+    {
+        let annot = || d(dictionary! { "Type" => n("Annot"), "Subtype" => n("Link"), "Rect" => a(vec![i(0), i(0), i(1), i(1)]) });
+        let base = vec![(1, catalog()), (2, pages_node()), (3, d(dictionary! { "Type" => n("Page"), "Parent" => r(2) })), (4, annot()), (5, a(vec![r(4)])), (6, r(6))];
+        let slots = vec![
+            key(3, "Annots", 6, vec![a(vec![r(4)]), r(5), r(4), a(vec![r(4), i(1), r(99), r(3), r(5)]), r(3), ab(), a(vec![]), r(99), i(1), annot(), r(6)]),
+            whole(4, 4, vec![annot(), a(vec![r(5), r(4)]), r(4), r(5), i(1), st(Dictionary::new(), b""), ab()]),
+            whole(5, 4, vec![a(vec![r(4)]), a(vec![r(5)]), r(4), r(5), a(vec![i(1), r(99)]), annot(), i(1)]),
+            key(2, "Kids", 1, vec![a(vec![r(3)]), a(vec![r(3), r(3)]), a(vec![r(3), r(4)])]),
+        ];
+        let mut insts = on(&[PageAnnots], 3);
+        insts.extend(on(&[PageAnnots, ObjectPage], 4));
+        insts.extend(on(&[ObjectPage], 5));
+        insts.extend(on(&[ObjectPage], 99));
+        out.push(plain("annots", "page /Annots(11) x object 4 in 7 kinds x object 5 in 7 kinds x root /Kids(3)", base, slots, insts));
+    }
+    // ---- images: the path to the image
+    {
+        let img = || st(dictionary! { "Type" => n("XObject"), "Subtype" => n("Image"), "Width" => i(1), "Height" => i(1), "ColorSpace" => n("DeviceGray"), "BitsPerComponent" => i(8) }, b"x");
+        let base = vec![(1, catalog()), (2, pages_node()), (3, d(dictionary! { "Type" => n("Page"), "Parent" => r(2) })), (4, d(Dictionary::new())), (5, d(Dictionary::new())), (6, img()), (8, r(8))];
+        let slots = vec![
+            key(3, "Resources", 3, vec![r(4), d(dictionary! { "XObject" => r(5) }), r(3), ab(), i(1)]),
+            key(4, "XObject", 3, vec![r(5), d(dictionary! { "Im1" => r(6) }), r(4), ab(), i(1)]),
+            key(5, "Im1", 3, vec![r(6), i(1), r(5), img(), r(99), r(8)]),
+            whole(6, 3, vec![img(), i(1), r(6), d(dictionary! { "Subtype" => n("Image") }), ab()]),
+        ];
+        let mut insts = on(&[PageImages], 3);
+        insts.extend(on(&[PageImages], 2));
+        out.push(plain("image-path", "page /Resources(5) x resources /XObject(5) x xobject entry /Im1(6) x image object in 5 kinds", base, slots, insts));
+    }
+    // ---- images: the image dictionary
+    {
+        let base = vec![(1, catalog()), (2, pages_node()), (3, d(dictionary! { "Type" => n("Page"), "Parent" => r(2), "Resources" => r(4) })), (4, d(dictionary! { "XObject" => d(dictionary! { "Im1" => r(6) }) })),
+                        (6, st(dictionary! { "Type" => n("XObject") }, b"x")), (7, a(vec![n("ICCBased"), r(6)]))];
+        let slots = vec![
+            key(6, "Subtype", 2, vec![n("Image"), n("Form"), ab(), i(1)]),
+            key(6, "Width", 2, vec![i(1), ab(), n("N"), r(6), Object::Real(1.0)]),
+            key(6, "Height", 2, vec![i(1), ab(), Object::Real(1.5)]),
+            key(6, "ColorSpace", 4, vec![n("DeviceRGB"), a(vec![]), a(vec![n("ICCBased"), r(7)]), a(vec![i(1)]), ab(), r(7), i(1), a(vec![a(vec![])])]),
+            key(6, "BitsPerComponent", 2, vec![i(8), n("N"), ab()]),
+            key(6, "Filter", 3, vec![ab(), n("DCTDecode"), a(vec![i(1)]), a(vec![]), a(vec![n("A"), n("B")]), i(1), r(7)]),
+        ];
+        out.push(plain("image-dict", "image /Subtype(4) /Width(5) /Height(3) /ColorSpace(8) /BitsPerComponent(3) /Filter(7)", base, slots, on(&[PageImages], 3)));
+    }
+    // ---- outline links: Next / First graphs
+    {
+        let dest = || a(vec![r(7), n("Fit")]);
+        let direct = || d(dictionary! { "Title" => s(b"D"), "Dest" => dest() });
+        let base = vec![(1, d(dictionary! { "Type" => n("Catalog"), "Pages" => r(6), "Outlines" => r(2) })), (2, d(dictionary! { "Type" => n("Outlines"), "Last" => r(4), "Count" => i(2) })),
+                        (3, d(dictionary! { "Title" => s(b"A"), "Parent" => r(2), "Dest" => dest() })), (4, d(dictionary! { "Title" => s(b"B"), "Parent" => r(2), "Dest" => dest() })), (5, r(3)),
+                        (6, d(dictionary! { "Type" => n("Pages"), "Kids" => a(vec![r(7)]), "Count" => i(1) })), (7, d(dictionary! { "Type" => n("Page"), "Parent" => r(6) }))];
+        let slots = vec![
+            key(2, "First", 1, vec![r(3), ab(), r(2), r(4), d(dictionary! { "Title" => s(b"D"), "Dest" => dest(), "Next" => r(3) })]),
+            key(3, "Next", 4, vec![ab(), r(3), r(4), r(2), r(99), i(1), direct(), r(5)]),
+            key(3, "First", 3, vec![ab(), r(3), r(4), r(2), r(99), i(1), direct(), r(5)]),
+            key(4, "Next", 3, vec![ab(), r(3), r(4), r(2), r(99), direct()]),
+            key(4, "First", 2, vec![ab(), r(3), r(4), r(2)]),
+        ];
+        let mut insts = on(&[Outlines, Toc], 0);
+        insts.extend(on(&[OutlineNode], 3));
+        insts.extend(on(&[OutlineNode], 4));
+        out.push(plain("outline-links", "outline root /First(5) x item 3 /Next(8) /First(8) x item 4 /Next(6) /First(4): every value in {absent, ref to item 3, item 4, root, dangling, integer, direct dictionary, ref to a ref}", base, slots, insts));
+    }
+    // ---- outline item: Title / Dest / A / S / D chaos on an acyclic outline
+    {
+        let dest = || a(vec![r(7), n("Fit")]);
+        let destv = || vec![dest(), a(vec![]), s(b"named1"), a(vec![r(7)]), r(8), ab(), s(b"unknown"), n("Name"), i(1), r(3), r(12), r(99), a(vec![i(1), i(2)])];
+        let base = vec![(1, d(dictionary! { "Type" => n("Catalog"), "Pages" => r(6), "Outlines" => r(2), "Dests" => r(10) })), (2, d(dictionary! { "Type" => n("Outlines"), "First" => r(3) })),
+                        (3, d(dictionary! { "Next" => r(4) })), (4, d(dictionary! { "Title" => s(b"B"), "Dest" => s(b"named1") })), (5, d(Dictionary::new())),
+                        (6, d(dictionary! { "Type" => n("Pages"), "Kids" => a(vec![r(7)]), "Count" => i(1) })), (7, d(dictionary! { "Type" => n("Page"), "Parent" => r(6) })), (8, dest()), (9, s(b"T")),
+                        (10, d(dictionary! { "Names" => a(vec![s(b"named1"), r(11)]) })), (11, d(dictionary! { "D" => a(vec![r(7), n("XYZ"), i(0), i(0), i(0)]) })), (12, r(12))];
+        let slots = vec![
+            key(3, "Title", 4, vec![s(b"A"), ab(), i(1), r(9), r(99), Object::String(vec![0xfe, 0xff, 0x00], StringFormat::Hexadecimal), r(3), n("Name")]),
+            key(3, "A", 3, vec![ab(), r(5), d(dictionary! { "S" => n("GoTo"), "D" => a(vec![]) }), i(1), r(99), d(Dictionary::new())]),
+            key(5, "S", 3, vec![n("GoTo"), n("Launch"), ab(), n("GoToR"), i(1), r(5)]),
+            key(5, "D", 5, destv()),
+            key(3, "Dest", 5, destv()),
+            whole(8, 2, vec![dest(), a(vec![]), a(vec![r(7)]), i(1)]),
+        ];
+        let mut insts = on(&[Outlines, Toc], 0);
+        insts.extend(on(&[OutlineNode], 3));
+        insts.extend(on(&[OutlineNode], 4));
+        out.push(plain("outline-item", "item /Title(8) /A(6) x action /S(6) /D(13) x item /Dest(13) x indirect destination array object in 4 kinds; destination values: arrays of 0, 1, 2 elements, known and unknown names, refs to array / dictionary / self-referencing ref / dangling", base, slots, insts));
+    }
+    // ---- toc titles
+    {
+        let hexs = |b: &[u8]| Object::String(b.to_vec(), StringFormat::Hexadecimal);
+        let base = vec![(1, d(dictionary! { "Type" => n("Catalog"), "Pages" => r(6), "Outlines" => r(2) })), (2, d(dictionary! { "First" => r(3) })), (3, d(dictionary! { "Next" => r(4) })), (4, d(dictionary! { "Dest" => a(vec![r(7), n("Fit")]) })),
+                        (6, d(dictionary! { "Type" => n("Pages"), "Kids" => a(vec![r(7)]), "Count" => i(1) })), (7, d(dictionary! { "Type" => n("Page"), "Parent" => r(6) }))];
+        let slots = vec![
+            key(3, "Title", 13, vec![s(b""), s(b"A"), s(b"AB"), hexs(&[0xfe, 0xff]), hexs(&[0xfe, 0xff, 0]), hexs(&[0xfe, 0xff, 0, 0x41]), hexs(&[0xfe, 0xff, 0, 0x41, 0]), hexs(&[0xff, 0xfe]), hexs(&[0xff, 0xfe, 0x41]),
+                                     hexs(&[0xff, 0xfe, 0x41, 0]), hexs(&[0xff]), hexs(&[0xfe, 0xff, 0xd8, 0]), hexs(&[0xc3, 0x28])]),
+            key(4, "Title", 3, vec![s(b"B"), s(b"A"), hexs(&[0xfe, 0xff, 0, 0x41])]),
+            key(3, "Dest", 4, vec![a(vec![r(7), n("Fit")]), a(vec![r(6), n("Fit")]), a(vec![i(1), n("Fit")]), a(vec![r(99), n("Fit")])]),
+        ];
+        out.push(plain("toc-titles", "title bytes of item 3 in 13 strings (empty, 1 byte, UTF-16 BE/LE marks with even and odd lengths, lone surrogate, invalid UTF-8) x title of item 4 (3: distinct, colliding) x destination page (4: page, non-page, integer, dangling)", base, slots,
+            on(&[Toc, Outlines], 0)));
+    }
+    // ---- named destinations: shape of the name tree
+    let tree_base = || vec![(1, d(dictionary! { "Type" => n("Catalog"), "Pages" => r(6), "Outlines" => r(2), "Dests" => r(5) })), (2, d(dictionary! { "First" => r(3) })), (3, d(dictionary! { "Title" => s(b"A"), "Dest" => s(b"k") })),
+                            (5, d(dictionary! { "Names" => a(vec![s(b"k"), r(10)]) })), (6, d(dictionary! { "Type" => n("Pages"), "Kids" => a(vec![r(7)]), "Count" => i(1) })), (7, d(dictionary! { "Type" => n("Page"), "Parent" => r(6) })),
+                            (8, d(dictionary! { "Names" => a(vec![s(b"k2"), r(10)]) })), (9, d(dictionary! { "Dests" => r(5) })), (10, d(dictionary! { "D" => a(vec![r(7), n("Fit")]) }))];
+    {
+        let slots = vec![
+            key(1, "Dests", 2, vec![r(5), ab(), d(dictionary! { "Names" => a(vec![s(b"k"), r(10)]) }), i(1), r(99)]),
+            key(1, "Names", 2, vec![ab(), r(9), d(dictionary! { "Dests" => r(5) }), i(1), r(5)]),
+            key(5, "Kids", 4, vec![ab(), a(vec![r(8)]), a(vec![r(5)]), a(vec![r(8), i(1), r(99), r(8)]), a(vec![]), i(1), r(8)]),
+            key(8, "Kids", 2, vec![ab(), a(vec![r(5)]), a(vec![r(8)])]),
+            key(5, "Names", 3, vec![a(vec![s(b"k"), r(10)]), ab(), i(1)]),
+        ];
+        let mut insts = on(&[Outlines, Toc], 0);
+        insts.extend(on(&[NamedDests], 5));
+        insts.extend(on(&[NamedDests], 8));
+        out.push(plain("name-tree", "catalog /Dests(5) /Names(5) x tree /Kids(7: self cycle, 5->8->5 cycle, duplicates, dangling) x kid /Kids(3) x tree /Names(3)", tree_base(), slots, insts));
+    }
+    // ---- named destinations: entries of the /Names array
+    {
+        let good = || d(dictionary! { "D" => a(vec![r(7), n("Fit")]) });
+        let slots = vec![
+            key(1, "Dests", 2, vec![r(5), d(dictionary! { "Names" => a(vec![s(b"k"), r(10)]) })]),
+            key(5, "Names", 8, vec![a(vec![s(b"k"), r(10)]), a(vec![s(b"k"), d(Dictionary::new())]), a(vec![n("k"), r(10)]), a(vec![s(b"k"), d(dictionary! { "D" => a(vec![]) })]), a(vec![s(b"k"), good()]),
+                                    a(vec![s(b"k")]), a(vec![]), a(vec![s(b"k"), r(99)]), a(vec![s(b"k"), a(vec![r(7), n("Fit")])]), a(vec![s(b"k"), d(dictionary! { "D" => i(1) })]),
+                                    a(vec![i(1), r(10)]), a(vec![s(b"k"), r(10), s(b"k2")]), a(vec![s(b"k"), d(dictionary! { "D" => a(vec![r(7)]) })]), a(vec![r(10), r(10)]), r(10)]),
+            whole(10, 5, vec![good(), d(Dictionary::new()), a(vec![]), d(dictionary! { "D" => a(vec![]) }), a(vec![r(7), n("Fit")]), d(dictionary! { "D" => a(vec![r(7)]) }), a(vec![r(7)]), i(1), r(10),
+                              st(dictionary! { "D" => a(vec![r(7), n("Fit")]) }, b""), d(dictionary! { "D" => r(7) })]),
+            key(5, "Kids", 2, vec![ab(), a(vec![r(8)])]),
+        ];
+        let mut insts = on(&[Outlines, Toc], 0);
+        insts.extend(on(&[NamedDests], 5));
+        out.push(plain("name-entries", "catalog /Dests(2) x tree /Names(15: odd length, non-string keys, direct / indirect / dangling values, dictionaries without /D or with /D of 0, 1 elements or an integer) x destination object 10 in 11 kinds x tree /Kids(2)", tree_base(), slots, insts));
+    }
+    // ---- streams: Filter / DecodeParms / Length chaos
+    {
+        let z = zlib(b"BT (x) Tj ET ");
+        let base = vec![(1, catalog()), (2, pages_node()), (3, d(dictionary! { "Type" => n("Page"), "Parent" => r(2), "Contents" => r(4), "Resources" => d(dictionary! { "Font" => d(dictionary! { "F1" => r(6) }) }) })),
+                        (4, i(0)), (6, font()), (7, n("FlateDecode"))];
+        let slots = vec![
+            whole(4, 4, vec![st(Dictionary::new(), &z), st(Dictionary::new(), TEXT), st(Dictionary::new(), b""), st(Dictionary::new(), &z[..z.len() / 2]), st(Dictionary::new(), b"~>"),
+                             st(Dictionary::new(), b"\x80\x0b\x60\x50\x22\x0c\x0c\x85\x01"), st(Dictionary::new(), b"87cURD]i,\"Ebo80~>")]),
+            key(4, "Filter", 5, vec![n("FlateDecode"), ab(), a(vec![n("ASCII85Decode"), n("FlateDecode")]), n("LZWDecode"), i(1), n("ASCII85Decode"), n("Foo"), a(vec![]), a(vec![i(1)]), r(7), d(Dictionary::new())]),
+            key(4, "DecodeParms", 3, vec![ab(), d(dictionary! { "Predictor" => i(12), "Columns" => i(4) }), i(1), d(dictionary! { "Predictor" => i(12), "Colors" => i(i64::MAX) }),
+                                          d(dictionary! { "Predictor" => i(15), "Columns" => i(0) }), d(dictionary! { "Predictor" => i(12), "Columns" => i(34359738368) }),
+                                          a(vec![d(dictionary! { "Predictor" => i(12) })]), d(dictionary! { "EarlyChange" => n("N"), "Predictor" => r(4) })]),
+            key(4, "Length", 3, vec![i(3), ab(), r(4), i(-1), i(i64::MAX), r(99), n("N")]),
+        ];
+        let mut insts = on(&[StreamFilters, StreamDecompress, StreamPlain, StreamDecode], 4);
+        insts.extend(on(&[PageContent, DecodeContent, ExtractText], 3));
+        out.push(plain("streams", "content stream body in 7 byte strings x /Filter(11) x /DecodeParms(8) x /Length(7: wrong, negative, huge, self reference, dangling, name)", base, slots, insts));
+    }
+    out
+}
+
+// ------------------------------------------------------------------------------------------------ worker
+
+static LAST_PANIC: std::sync::Mutex<String> = std::sync::Mutex::new(String::new());
+
+fn raw_write(s: &str) {
+    use std::os::unix::io::FromRawFd;
+    let mut f = std::mem::ManuallyDrop::new(unsafe { std::fs::File::from_raw_fd(1) });
+    let _ = f.write_all(s.as_bytes());
+}
+
+fn install_hook() {
+    std::panic::set_hook(Box::new(|info| {
+        let msg = if let Some(s) = info.payload().downcast_ref::<String>() { s.clone() } else if let Some(s) = info.payload().downcast_ref::<&str>() { s.to_string() } else { "panic".to_string() };
+        let loc = info.location().map(|l| format!(" at {}:{}", l.file(), l.line())).unwrap_or_default();
+        if let Ok(mut g) = LAST_PANIC.lock() { *g = format!("{}{}", msg, loc); }
+    }));
+}
+
+/// evaluates one instance under the timers; returns the code that ends the protocol line
+fn eval_code(doc: &Document, kind: Kind, arg: ObjectId, cpu_ms: u64, verbose: bool) -> String {
+    arm(ITIMER_REAL, WALL_S as u64 * 1000);
+    arm(ITIMER_PROF, cpu_ms);
+    let r = std::panic::catch_unwind(AssertUnwindSafe(|| run_inst(doc, kind, arg)));
+    arm(ITIMER_PROF, 0);
+    arm(ITIMER_REAL, 0);
+    match r {
+        Ok(res) => match res.model {
+            Some((ob, msg)) => format!("M{}|{}", ob, hex(msg.as_bytes())),
+            None => if verbose { format!("{}{}", res.class as char, hex(res.note.as_bytes())) } else { (res.class as char).to_string() },
+        },
+        Err(_) => { let m = LAST_PANIC.lock().map(|g| g.clone()).unwrap_or_default(); format!("P{}", hex(m.as_bytes())) }
+    }
+}
+
+fn in_thread(f: impl FnOnce() + Send) {
+    std::thread::scope(|sc| {
+        let h = std::thread::Builder::new().stack_size(STACK).spawn_scoped(sc, f).expect("spawn");
+        let _ = h.join();
+    });
+}
+
+fn worker_range(fam: &Family, thorough: bool, start_idx: u64, start_k: usize, end_idx: u64) -> ! {
+    worker_limits();
+    install_hook();
+    in_thread(|| {
+        let mut pending = String::new();
+        for idx in start_idx..end_idx {
+            let doc = fam.build(idx, thorough);
+            let k0 = if idx == start_idx { start_k } else { 0 };
+            for k in k0..fam.insts.len() {
+                let (kind, arg) = fam.insts[k];
+                pending.push_str(&format!("{} {} ", idx, k));
+                raw_write(&pending);
+                pending.clear();
+                pending.push_str(&eval_code(&doc, kind, arg, CPU_MS_RUN, false));
+                pending.push('\n');
+            }
+        }
+        pending.push_str("done\n");
+        raw_write(&pending);
+    });
+    std::process::exit(0);
+}
+
+fn worker_json(path: &str) -> ! {
+    worker_limits();
+    install_hook();
+    let txt = std::fs::read_to_string(path).expect("case file");
+    let v: Value = serde_json::from_str(&txt).expect("json");
+    let (doc, kind, arg) = case_from_json(&v).expect("case");
+    in_thread(move || {
+        raw_write("0 0 ");
+        let code = eval_code(&doc, kind, arg, CPU_MS_REPLAY, true);
+        raw_write(&format!("{}\ndone\n", code));
+    });
+    std::process::exit(0);
+}
+
+// ------------------------------------------------------------------------------------------------ parent
+
+struct RunOut { lines: Vec<(u64, usize, String)>, in_progress: Option<(u64, usize)>, done: bool, death: Option<(&'static str, String)> }
+
+fn spawn_worker(args: &[String]) -> Result<RunOut, String> {
+    let exe = std::env::current_exe().map_err(|e| e.to_string())?;
+    let out = std::process::Command::new(exe).arg("c13-queries").args(args).env("RUST_BACKTRACE", "0").stdin(std::process::Stdio::null()).output().map_err(|e| e.to_string())?;
+    let text = String::from_utf8_lossy(&out.stdout).to_string();
+    let mut lines = vec![];
+    let mut in_progress = None;
+    let mut done = false;
+    for l in text.split('\n') {
+        if l == "done" { done = true; continue; }
+        let f: Vec<&str> = l.split(' ').collect();
+        if f.len() == 3 && !f[2].is_empty() {
+            lines.push((f[0].parse().map_err(|_| format!("bad line {:?}", l))?, f[1].parse().map_err(|_| format!("bad line {:?}", l))?, f[2].to_string()));
+        } else if f.len() >= 2 && !f[0].is_empty() {
+            in_progress = Some((f[0].parse().map_err(|_| format!("bad line {:?}", l))?, f[1].parse().map_err(|_| format!("bad line {:?}", l))?));
+        }
+    }
+    let mut death = None;
+    if !(done && out.status.success()) {
+        use std::os::unix::process::ExitStatusExt;
+        let err = String::from_utf8_lossy(&out.stderr).to_string();
+        let errline = err.lines().filter(|l| !l.trim().is_empty()).last().unwrap_or("").to_string();
+        death = Some(match out.status.signal() {
+            Some(SIGPROF) => ("terminates", "still running when its CPU budget ran out (killed by SIGPROF)".to_string()),
+            Some(SIGALRM) => ("terminates", format!("still running after {} s wall clock (killed by SIGALRM)", WALL_S)),
+            Some(SIGABRT) | Some(SIGSEGV) if err.contains("overflowed its stack") => ("bounded-recursion", format!("stack overflow on a {} MiB stack: {}", STACK >> 20, errline)),
+            Some(SIGABRT) => ("no-abort", format!("process aborted: {}", errline)),
+            Some(sig) => ("no-abort", format!("process killed by signal {}: {}", sig, errline)),
+            None => ("no-abort", format!("worker exited with {:?}: {}", out.status.code(), errline)),
+        });
+    }
+    Ok(RunOut { lines, in_progress, done, death })
+}
+
+struct Fail { idx: u64, k: usize, obligation: String, observed: String }
+#[derive(Default)]
+struct ChunkOut { evals: u64, nontrivial: u64, fails: Vec<Fail>, harness_errors: Vec<String>, ok_sample: Option<(u64, usize, u8)> }
+
+fn decode_line(code: &str) -> (Option<(String, String)>, u8) {
+    let tail = |s: &str| String::from_utf8_lossy(&unhex(s)).to_string();
+    match code.as_bytes()[0] {
+        b'P' => (Some(("no-panic".to_string(), format!("panicked: {}", tail(&code[1..])))), b'P'),
+        b'M' => { let (ob, m) = code[1..].split_once('|').unwrap_or(("model", "")); (Some((ob.to_string(), tail(m))), b'M') }
+        c => (None, c),
+    }
+}
+
+fn run_chunk(fam: &Family, thorough: bool, lo: u64, hi: u64) -> ChunkOut {
+    let mut out = ChunkOut::default();
+    let (mut idx, mut k) = (lo, 0usize);
+    let ninst = fam.insts.len();
+    while idx < hi {
+        let args: Vec<String> = vec!["--c13-worker".into(), fam.name.into(), (thorough as u8).to_string(), idx.to_string(), k.to_string(), hi.to_string()];
+        let run = match spawn_worker(&args) { Ok(r) => r, Err(e) => { out.harness_errors.push(format!("family {} at {} {}: {}", fam.name, idx, k, e)); break; } };
+        for (li, lk, code) in &run.lines {
+            out.evals += 1;
+            let (fail, class) = decode_line(code);
+            match fail {
+                Some((ob, obs)) => { out.nontrivial += 1; out.fails.push(Fail { idx: *li, k: *lk, obligation: format!("{}:{}", ob, kind_name(fam.insts[*lk].0)), observed: obs }); }
+                None => { if class == b'v' || class == b'R' { out.nontrivial += 1; if out.ok_sample.is_none() { out.ok_sample = Some((*li, *lk, class)); } } }
+            }
+        }
+        match (run.death, run.in_progress) {
+            (None, _) => break,
+            (Some((ob, obs)), Some((di, dk))) => {
+                out.evals += 1;
+                out.nontrivial += 1;
+                out.fails.push(Fail { idx: di, k: dk, obligation: format!("{}:{}", ob, kind_name(fam.insts[dk].0)), observed: obs });
+                if dk + 1 < ninst { idx = di; k = dk + 1; } else { idx = di + 1; k = 0; }
+            }
+            (Some((ob, obs)), None) => { out.harness_errors.push(format!("family {} worker from {} {} died outside an evaluation: {} {}", fam.name, idx, k, ob, obs)); break; }
+        }
+    }
+    out
+}
+
+fn case_json(fam: &Family, thorough: bool, idx: u64, k: usize) -> Value {
+    let doc = fam.build(idx, thorough);
+    let (kind, arg) = fam.insts[k];
+    json!({"family": fam.name, "index": idx, "thorough": thorough, "query": kind_name(kind), "arg": [arg.0, arg.1],
+           "objects": doc.objects.iter().map(|(id, o)| json!({"id": id.0, "gen": id.1, "obj": obj_json(o)})).collect::<Vec<_>>(),
+           "trailer": doc.trailer.iter().map(|(k, v)| json!([hex(k), obj_json(v)])).collect::<Vec<_>>()})
+}
+
+fn case_from_json(v: &Value) -> Result<(Document, Kind, ObjectId), String> {
+    let kind = kind_from(v["query"].as_str().unwrap_or("")).ok_or("unknown query")?;
+    let arg = (v["arg"][0].as_u64().unwrap_or(0) as u32, v["arg"][1].as_u64().unwrap_or(0) as u16);
+    let mut objects = BTreeMap::new();
+    for e in v["objects"].as_array().ok_or("objects")? {
+        objects.insert((e["id"].as_u64().ok_or("id")? as u32, e["gen"].as_u64().ok_or("gen")? as u16), obj_from_json(&e["obj"]));
+    }
+    let mut trailer = Dictionary::new();
+    for e in v["trailer"].as_array().ok_or("trailer")? { trailer.set(unhex(e[0].as_str().ok_or("key")?), obj_from_json(&e[1])); }
+    Ok((make_doc(objects, trailer), kind, arg))
+}
+
+fn describe_doc(doc: &Document) -> String {
+    let mut t = format!("trailer {:?}; ", doc.trailer);
+    for (id, o) in &doc.objects { t.push_str(&format!("{} {}: {:?}; ", id.0, id.1, o)); }
+    if t.len() > 900 { let mut cut = 900; while !t.is_char_boundary(cut) { cut -= 1; } t.truncate(cut); t.push_str("..."); }
+    t
+}
+
+pub fn run(thorough: bool) -> Report {
+    let args: Vec<String> = std::env::args().collect();
+    if let Some(p) = args.iter().position(|a| a == "--c13-worker") {
+        let fams = families();
+        let fam = fams.iter().find(|f| f.name == args[p + 1]).expect("family");
+        worker_range(fam, args[p + 2] == "1", args[p + 3].parse().unwrap(), args[p + 4].parse().unwrap(), args[p + 5].parse().unwrap());
+    }
+    if let Some(p) = args.iter().position(|a| a == "--c13-json") { worker_json(&args[p + 1]); }
+
+    let fams = families();
+    let mut bound = format!("typed-chaos documents, {} families, each the full product of its slot alphabets (alphabet sizes in parentheses; the quick tier uses a prefix of each alphabet), every listed query evaluated on every document in a worker process ({} ms CPU budget, {} MiB stack, {} GiB address space per evaluation): ", fams.len(), CPU_MS_RUN, STACK >> 20, AS_LIMIT >> 30);
+    for f in &fams {
+        let mut q: Vec<String> = vec![];
+        for (k, id) in &f.insts { let t = if id.0 == 0 { kind_name(*k).to_string() } else { format!("{}({})", kind_name(*k), id.0) }; if !q.contains(&t) { q.push(t); } }
+        bound.push_str(&format!("[{}: {} = {} documents x {} queries ({})] ", f.name, f.what, f.count(thorough), f.insts.len(), q.join(", ")));
+    }
+    let mut rep = Report::new(bound.trim_end(), true);
+    let mut obligations: HashSet<String> = HashSet::new();
+    for f in &fams { for (k, _) in &f.insts { for ob in ["no-panic", "terminates", "bounded-recursion", "no-abort"] { obligations.insert(format!("{}:{}", ob, kind_name(*k))); } } }
+    for k in [GetObject, Dereference, GetDictionary, GetObjectMut, HasObject, GetDictInDict, Catalog] { obligations.insert(format!("lookup-model:{}", kind_name(k))); }
+    for k in [GetPages, PageIter] { obligations.insert(format!("pages-sound:{}", kind_name(k))); }
+    rep.obligations = obligations.len() as u64;
+
+    // chunks of consecutive indices; results are merged in index order so the smallest failing input of an obligation is kept
+    let mut chunks: Vec<(usize, u64, u64)> = vec![];
+    for (fi, f) in fams.iter().enumerate() {
+        let total = f.count(thorough);
+        let size = (total / 256).clamp(8, 1500);
+        let mut lo = 0;
+        while lo < total { let hi = (lo + size).min(total); chunks.push((fi, lo, hi)); lo = hi; }
+    }
+    let results: Vec<ChunkOut> = chunks.par_iter().map(|(fi, lo, hi)| run_chunk(&fams[*fi], thorough, *lo, *hi)).collect();
+
+    let mut tally: BTreeMap<String, u64> = BTreeMap::new();
+    let mut sampled: HashSet<usize> = HashSet::new();
+    for ((fi, _, _), out) in chunks.iter().zip(results.into_iter()) {
+        let fam = &fams[*fi];
+        rep.evaluations += out.evals;
+        rep.nontrivial += out.nontrivial;
+        for e in out.harness_errors { rep.fail("harness", e.clone(), json!({"family": fam.name}), e); }
+        for f in out.fails {
+            let c = tally.entry(f.obligation.clone()).or_insert(0);
+            *c += 1;
+            if *c <= 3 {
+                let input = case_json(fam, thorough, f.idx, f.k);
+                let (kind, arg) = fam.insts[f.k];
+                let detail = format!("{} with argument {:?} on document #{} of family {}: {} -- document: {}", kind_name(kind), arg, f.idx, fam.name, f.observed, describe_doc(&fam.build(f.idx, thorough)));
+                rep.fail(&f.obligation, detail, input, f.observed);
+            }
+        }
+        if let Some((idx, k, class)) = out.ok_sample {
+            if sampled.len() < 3 && sampled.insert(*fi) {
+                rep.sample(format!("{} #{}: {} came back with {} on {}", fam.name, idx, kind_name(fam.insts[k].0), if class == b'v' { "a value" } else { "an error" }, describe_doc(&fam.build(idx, thorough))));
+            }
+        }
+    }
+    if !tally.is_empty() {
+        let t: Vec<String> = tally.iter().map(|(k, v)| format!("{} x{}", k, v)).collect();
+        rep.samples.insert(0, format!("failing evaluations per obligation: {}", t.join(", ")));
+        rep.samples.truncate(4);
+    }
+    rep
+}
+
+pub fn replay(v: &Value) -> Result<(), String> {
+    case_from_json(v)?;
+    static SEQ: std::sync::atomic::AtomicU64 = std::sync::atomic::AtomicU64::new(0);
+    let path = std::env::temp_dir().join(format!("c13-replay-{}-{}.json", std::process::id(), SEQ.fetch_add(1, std::sync::atomic::Ordering::Relaxed)));
+    std::fs::write(&path, v.to_string()).map_err(|e| e.to_string())?;
+    let run = spawn_worker(&["--c13-json".to_string(), path.to_string_lossy().to_string()]);
+    let _ = std::fs::remove_file(&path);
+    let run = run?;
+    let q = v["query"].as_str().unwrap_or("?");
+    if let Some((ob, obs)) = run.death { return Err(format!("{}:{}: {}", ob, q, obs)); }
+    match run.lines.first() {
+        Some((_, _, code)) => match decode_line(code) { (Some((ob, obs)), _) => Err(format!("{}:{}: {}", ob, q, obs)), (None, _) => Ok(()) },
+        None => Err("worker produced no result".into()),
+    }
 }
